@@ -374,6 +374,9 @@ unsafe impl std::alloc::GlobalAlloc for CountingAlloc {
 
 pub fn install_panic_hook() {
     std::panic::set_hook(Box::new(|info| {
+        // Allocations made by the hook itself (backtrace symbolisation caches differ between the
+        // first and later panics of a process) must not leak into the per-task allocation count
+        let (a_saved, b_saved) = (ALLOCS.with(|c| c.get()), ALLOC_BYTES.with(|c| c.get()));
         let (file, line) = match info.location() {
             Some(l) => (l.file().to_string(), l.line()),
             None => ("<unknown>".to_string(), 0),
@@ -426,6 +429,8 @@ pub fn install_panic_hook() {
         }
         let msg = format!("{msg}\u{1}{func}");
         LAST_PANIC.with(|p| *p.borrow_mut() = Some((file, line, msg)));
+        ALLOCS.with(|c| c.set(a_saved));
+        ALLOC_BYTES.with(|c| c.set(b_saved));
     }));
 }
 
@@ -614,7 +619,7 @@ fn run_task(task: &TaskSpec, fss: &[FsSpec], yield_hook: Option<&dyn Fn()>) -> T
     let a0 = ALLOCS.with(|c| c.get());
     let b0 = ALLOC_BYTES.with(|c| c.get());
     LAST_PANIC.with(|p| *p.borrow_mut() = None);
-    #[cfg(feature = "probes")]
+    #[cfg(rssl_verif)]
     let _ = rssl::text::verif::drain();
 
     let mut fs = SimFs::new(&fss[task.fs], &task.faults);
@@ -626,9 +631,9 @@ fn run_task(task: &TaskSpec, fss: &[FsSpec], yield_hook: Option<&dyn Fn()>) -> T
     let alloc_bytes = ALLOC_BYTES.with(|c| c.get()) - b0;
     drop(noise);
 
-    #[cfg(feature = "probes")]
+    #[cfg(rssl_verif)]
     let probes = rssl::text::verif::drain();
-    #[cfg(not(feature = "probes"))]
+    #[cfg(not(rssl_verif))]
     let probes = Vec::new();
 
     let events = std::mem::take(&mut fs.events);
